@@ -6,12 +6,25 @@ IMPORTS = ["Rbacx.Model.Locks"]
 
 
 def extract(repo: str) -> dict:
-    import importlib
+    """each scenario is traced in its own child process under a timeout: on a broken tree a scenario may deadlock, which
+    is recorded with a marker program that fails the obligation (`hung`)"""
+    import json
+    import os
+    import subprocess
+    import sys
 
     import reloadertrace
-    loader = importlib.import_module("rbacx.policy.loader")
-    from rbacx.core.engine import Guard
-    return reloadertrace.scenarios(Guard, loader)
+    out = {}
+    env = dict(os.environ, RBACX_REPO=repo, PYTHONDONTWRITEBYTECODE="1")
+    for name in reloadertrace.SCENARIOS:
+        try:
+            p = subprocess.run([sys.executable, reloadertrace.__file__, name], capture_output=True, text=True, timeout=20, env=env)
+            out.update(json.loads(p.stdout.strip().splitlines()[-1]))
+        except subprocess.TimeoutExpired:
+            out[name] = {"roots": [0], "progs": {"0": ["acq", ["wait", 1]], "1": ["acq", "rel"], "2": []}, "hung": True}
+        except Exception as e:  # noqa: BLE001
+            out[name] = {"roots": [0], "progs": {"0": ["rel"], "1": [], "2": []}, "error": f"{type(e).__name__}: {e}"}
+    return out
 
 
 def _op(o) -> str:
